@@ -57,6 +57,10 @@ pub enum CelValue {
     )]
     Duration(Duration),
     ByteCode(CelByteCode),
+    // Error values are now encapsulated. Kept in front of the variants that are never
+    // serialized: formats that identify variants by index (bincode) count skipped variants
+    // when writing but not when reading.
+    Err(CelError),
     #[cfg(feature = "protobuf")]
     #[serde(skip_serializing, skip_deserializing)]
     Message(Box<dyn MessageDyn>),
@@ -68,8 +72,6 @@ pub enum CelValue {
     },
     #[serde(skip_serializing, skip_deserializing)]
     Dyn(Arc<dyn CelValueDyn>),
-    // Error values are now encapsulated.
-    Err(CelError),
 }
 
 impl CelValue {
